@@ -99,3 +99,7 @@ def build(pc, E, canary=None):
 
 def concretise(pc, it):
     return {'script': 'subapp_case.py', 'case': {'seed': 1, 'trees': 150}}
+
+
+def fallback(pc):
+    return [{'script': 'subapp_case.py', 'case': {'seed': 1, 'trees': 150}}]
